@@ -13,10 +13,12 @@ import JjModel.Lemmas.Immutable
     changes no immutable commit; `rejected_iff` says when it is refused instead;
   * `ignore_immutable_protects_root`;
   * `snapshot_on_immutable_creates_child`, `snapshot_never_rewrites_immutable`, `finish_wc_mutable`;
-  * the three commands that touch `@` without asking `check_rewritable` (`jj commit`, and the
-    abandon-if-discardable rule of `jj new` / `jj edit`): `unguarded_only_touch_wc_descendants`,
+  * `jj commit` is a guarded command (checked set = `{@}`, /repo edbccd1):
+    `commit_rejected_iff_wc_immutable`, `commit_never_rewrites_immutable`;
+  * the two commands that touch `@` without asking `check_rewritable` (the abandon-if-discardable
+    rule of `jj new` / `jj edit`): `unguarded_only_touch_wc_descendants`,
     `unguarded_safe_if_wc_mutable`, and — because the code really does this — the *negation* of the
-    property for them when `@` is immutable: `commit_unguarded_witness`, `discard_unguarded_witness`.
+    property for them when `@` is immutable: `discard_unguarded_witness`.
 
   Partial (see notes/C42.md): the theorems are about the command *table*; that each command of
   /repo/cli really passes the listed set to `check_rewritable` and changes no more than the listed
@@ -109,7 +111,7 @@ theorem check_rewritable_guards (g : Graph) (wc : Nat) (c : Cmd) (hc : unguarded
   | parallelize ts => simpa [affected, effect, checked] using hx
   | simplifyParents a => simpa [affected, effect, checked] using hx
   | refSet a => simp [affected, effect] at hx
-  | commitWc => simp [unguarded] at hc
+  | commitWc => simpa [affected, effect, checked] using hx
 
 theorem run_ok_checked {g : Graph} {heads : List Nat} {wc : Nat} {ign : Bool} {c : Cmd} {rw ab : List Nat}
     (h : run g heads wc ign c = .ok rw ab) :
@@ -245,7 +247,6 @@ theorem unguarded_only_touch_wc_descendants (g : Graph) (wc : Nat) (c : Cmd) (hc
     simp only [affected, effect, discardWc, List.nil_append] at hx
     split at hx <;> simp at hx
     exact desc_self g _ x (by simp [hx])
-  case commitWc => simpa [affected, effect] using hx
 
 /-- … so they are harmless whenever `@` is mutable at command start (which `finish_wc_mutable`
 guarantees as long as nothing else — another workspace, a configuration change — made it immutable). -/
@@ -254,6 +255,25 @@ theorem unguarded_safe_if_wc_mutable {g : Graph} (hg : Topo g) (heads : List Nat
     ∀ x ∈ affected g wc c, x ∉ immutableSet g heads :=
   fun x hx => mutable_descendants hg heads [wc] (by simpa using hwc) x
     (unguarded_only_touch_wc_descendants g wc c hc x hx)
+
+/-! ### `jj commit` is guarded (finding `unguarded-wc:commit`, repaired by /repo edbccd1) -/
+
+/-- `jj commit` is refused exactly when `@` is immutable at command start (another workspace
+tagged it, or the configuration changed); `jj commit` has no usage error in the model. -/
+theorem commit_rejected_iff_wc_immutable (g : Graph) (heads : List Nat) (wc : Nat) :
+    run g heads wc false .commitWc = .rejected ↔ wc ∈ immutableSet g heads := by
+  rw [rejected_iff]
+  simp [preError, checked]
+
+/-- `jj commit` that is not refused rewrites `@` and its descendants only, none of them immutable
+(instance of `immutable_untouched`; before the repair this held only for a mutable `@`). -/
+theorem commit_never_rewrites_immutable {g : Graph} (hg : Topo g) (heads : List Nat) (wc : Nat)
+    (rw ab : List Nat) (h : run g heads wc false .commitWc = .ok rw ab) :
+    (rw = dedupSorted (descendants g [wc]) ∧ ab = []) ∧ ∀ x, x ∈ rw ∨ x ∈ ab → x ∉ immutableSet g heads := by
+  refine ⟨?_, immutable_untouched hg heads wc .commitWc rfl rw ab h⟩
+  obtain ⟨_, h1, h2⟩ := run_ok_checked h
+  subst h1 h2
+  simp [effect, dedupSorted]
 
 /-! ### the code violates the property for the unguarded commands when `@` is immutable -/
 
@@ -264,12 +284,11 @@ theorem witnessGraph_topo : Topo witnessGraph := by
   · intro c hc; simp [witnessGraph] at hc; rcases hc with rfl | rfl <;> simp
   · simp [witnessGraph]
 
-/-- `jj commit` with an immutable `@` (here: `immutable_heads() = {2}`, `@ = 2`) is not refused and
-rewrites the immutable commit 2 — mirrored from commands/commit.rs, confirmed on the binary
-(known finding `unguarded-wc:commit`). -/
-theorem commit_unguarded_witness :
-    run witnessGraph [2] 2 false .commitWc = .ok [2] [] ∧ 2 ∈ immutableSet witnessGraph [2] := by
-  decide
+/-- The former counter-example of `jj commit` (`immutable_heads() = {2}`, `@ = 2`, two-workspace
+reproducer of the harness): now refused; with `--ignore-immutable` it rewrites `@` as before. -/
+example : run witnessGraph [2] 2 false .commitWc = .rejected := by decide
+example : run witnessGraph [2] 2 true .commitWc = .ok [2] [] := by decide
+example : run witnessGraph [1] 2 false .commitWc = .ok [2] [] := by decide
 
 /-- `jj new <other>` with an immutable, discardable, unreferenced head `@` abandons it
 (`MutableRepo::maybe_abandon_wc_commit`; known finding `unguarded-wc:new-on` / `:edit`). -/
